@@ -13,6 +13,10 @@
        Global what              a use of process-global randomness (np.random.<fn>, random.<fn>,
                                 default_rng()/SeedSequence() without a seeded argument, torch.manual_seed,
                                 torch.rand* without generator=)
+   Also reported as Global inside functions that take randomness: values that differ between interpreter
+   processes (hash(), id(), pid, clocks, uuid4, urandom) and iteration in set order -- seed material built from
+   them is stable inside one process only.  Helper functions of the restricted modules (pipeline/_impl.py, ...)
+   that take randomness are part of the graph.
    A local name is "derived from the caller's randomness" if it is assigned from an expression that
    mentions a derived name (rng = random_generator(rng); seed = SeedSequence(options.rng);
    c_opts = replace(options, rng=seed.spawn(1)[0]); train_ctx = self.prepare_context(options); ...), or if
@@ -56,6 +60,9 @@ GLOBAL_PREFIXES = ("np.random.", "numpy.random.", "random.")
 GLOBAL_OK = {"np.random.default_rng", "np.random.SeedSequence", "np.random.Generator", "np.random.BitGenerator",
              "np.random.RandomState"}
 GLOBAL_CALLS = {"torch.manual_seed", "torch.seed", "np.random.seed"}
+# values that differ between interpreter processes: seed material must not be built from them
+PROCESS_DEPENDENT = {"hash", "id", "os.getpid", "time.time", "time.time_ns", "time.perf_counter", "uuid.uuid4", "uuid4",
+                     "os.urandom", "secrets.token_bytes", "secrets.randbits"}
 PIPELINE_ONLY = {"lenskit/pipeline/_impl.py": {"Pipeline.train"}, "lenskit/training.py": {"TrainingOptions.random_generator", "IterativeTraining.train"},
                  "lenskit/data/relationships.py": {"MatrixRelationshipSet.sample_negatives", "MatrixRelationshipSet._check_negatives_and_resample"}}
 
@@ -118,7 +125,7 @@ def collect(src: Path) -> list[Fn]:
                 if any(isinstance(d, ast.Name) and d.id == "overload" for d in n.decorator_list):
                     continue
                 fn = Fn(rel, None, n)
-                if only is None or fn.name in only:
+                if only is None or fn.name in only or fn.takes:     # helpers that take randomness are always in
                     fns.append(fn)
             elif isinstance(n, ast.ClassDef):
                 BASES[n.name] = [b.id if isinstance(b, ast.Name) else (b.value.id if isinstance(b, ast.Subscript) and isinstance(b.value, ast.Name) else
@@ -128,7 +135,7 @@ def collect(src: Path) -> list[Fn]:
                         if any(isinstance(d, ast.Name) and d.id == "overload" for d in m.decorator_list):
                             continue
                         fn = Fn(rel, n.name, m)
-                        if only is None or fn.name in only:
+                        if only is None or fn.name in only or (fn.takes and any(o.startswith(n.name + ".") for o in only)):
                             fns.append(fn)
     return fns
 
@@ -219,6 +226,10 @@ def analyse(fn: Fn, by_simple: dict[str, list[Fn]]):
             if recv in gens and c.func.attr not in ("spawn", "manual_seed"):
                 out.append(("Draw", recv + "." + c.func.attr, c.lineno))
                 return
+        # seed material that depends on the interpreter process (string hashing is randomised per process)
+        if fn.takes and d in PROCESS_DEPENDENT:
+            out.append(("Global", "process-dependent:" + d + "()", c.lineno))
+            return
         # process-global randomness
         if d in GLOBAL_CALLS or (d and d.startswith(GLOBAL_PREFIXES) and d not in GLOBAL_OK):
             out.append(("Global", d, c.lineno))
@@ -292,6 +303,13 @@ def analyse(fn: Fn, by_simple: dict[str, list[Fn]]):
     calls = sorted((x for x in ast.walk(fn.node) if isinstance(x, ast.Call)), key=lambda x: (x.lineno, x.col_offset))
     for c in calls:
         visit_call(c)
+    if fn.takes:
+        # iteration in set order (differs between processes for strings)
+        for x in ast.walk(fn.node):
+            it = x.iter if isinstance(x, (ast.For, ast.comprehension)) else None
+            if it is not None and (isinstance(it, (ast.Set, ast.SetComp)) or
+                                   (isinstance(it, ast.Call) and dotted(it.func) in ("set", "frozenset"))):
+                out.append(("Global", "process-dependent:set-order", getattr(it, "lineno", 0)))
     # attribute reads of np.random.<global state> that are not calls
     return out, sorted(derived)
 
